@@ -51,7 +51,17 @@ type Ctx struct {
 // withAlias runs f with rule names translated (shared rule groups keep their own site keys).
 func (c *Ctx) withAlias(m map[string]string, f func()) {
 	old := c.alias
-	c.alias = m
+	nm := map[string]string{}
+	for k, v := range old {
+		nm[k] = v
+	}
+	for k, v := range m {
+		if w, ok := old[v]; ok {
+			v = w
+		}
+		nm[k] = v
+	}
+	c.alias = nm
 	defer func() { c.alias = old }()
 	f()
 }
